@@ -36,7 +36,7 @@ def apply (st : St) (op : Op) : St × String :=
 
 /--
 `init <next>` · `civ <loc> <minute> <y.mo.d.h.mi.wd>` · `add <name> <text> <loc>` · `remove|enable|disable <name>` ·
-`tick <now>` · `sched <next>` · `drain` · `info` · `jobsched <name> <sinceNs> <periodNs>` · `schedule <sinceNs> <periodNs>`
+`tick <now>` · `tickdrain <now>` · `ticksched <now>` · `sched <next>` · `drain` · `info` · `jobsched <name> <sinceNs> <periodNs>` · `schedule <sinceNs> <periodNs>`
 -/
 def line (st : St) (l : String) : St × String :=
   match words l with
@@ -65,6 +65,12 @@ def line (st : St) (l : String) : St × String :=
   | ["tick", n] => match n.toInt? with
     | some n => if st.haveAll (n + 1) then apply st (.tick n) else (st, "no-civ")
     | none => (st, "bad-op")
+  | ["tickdrain", n] => match n.toInt? with
+    | some n => apply st (.tickDrain n)
+    | none => (st, "bad-op")
+  | ["ticksched", n] => match n.toInt? with
+    | some n => if st.haveAll (n + 1) then apply st (.tickSched n) else (st, "no-civ")
+    | none => (st, "bad-op")
   | ["sched", n] => match n.toInt? with
     | some n => if st.haveAll n then apply st (.sched n) else (st, "no-civ")
     | none => (st, "bad-op")
@@ -72,7 +78,7 @@ def line (st : St) (l : String) : St × String :=
   | ["info"] =>
     let s := st.s
     let jobs := sortNat (s.jobs.map fun p => (s.objs p).name * 2 + (if (s.objs p).disable then 1 else 0))
-    (st, s!"{s.next} {showNatList (sortNat (infoSpool s))} {showNatList (names s s.spool)} {showNatList jobs}")
+    (st, s!"{s.next} {showNatList (sortNat (infoSpool s))} {showNatList (names s (s.spool.map (·.1)))} {showNatList jobs}")
   | ["jobsched", n, since, period] =>
     match n.toNat?, since.toInt?, period.toInt? with
     | some n, some since, some period =>
